@@ -234,7 +234,40 @@ def check_dicke(ctx):
 
 
 # ---- the tolerance model (Tolerance.tla) ----------------------------------------------------------------
-TOLC = dict(Unit=10000000, Tol=100, Band=2, MaxOff=70)
+TOLC = dict(Unit=10000000, Tol=100, Band=2, MaxOff=70, Scale=1)
+
+
+def calibrate_tolerance():
+    """what the constructor of the tree under test accepts: the largest deviation of the total (in units of 1/Unit) on either side;
+    returns None when acceptance is not a band around 1 that this model can express"""
+    from orquestra.quantum.wavefunction import Wavefunction
+
+    unit = TOLC["Unit"]
+
+    def ok(dev):
+        try:
+            Wavefunction(np.array([math.sqrt((unit // 2 + dev) / unit), 1j * math.sqrt((unit // 2) / unit)], dtype=complex))
+            return True
+        except ValueError:
+            return False
+
+    if not ok(0):
+        return None
+    lims = []
+    for sign in (1, -1):
+        lo, hi = 0, 200000
+        if ok(sign * hi):
+            return None
+        while hi - lo > 1:
+            mid = (lo + hi) // 2
+            if ok(sign * mid):
+                lo = mid
+            else:
+                hi = mid
+        lims.append(lo)
+    if abs(lims[0] - lims[1]) > max(2, lims[0] // 50) or min(lims) < 8:
+        return None
+    return min(lims)
 
 
 def _tol_amp(pv, i):
@@ -299,6 +332,13 @@ def replay_tolerance(ctx, steps, fresh_each=False):
 
 def check_tolerance(ctx):
     quick = ctx.tier == "quick"
+    tol = calibrate_tolerance()
+    if tol is None:
+        ctx.note("Tolerance.tla not replayed: the constructor's acceptance is not a symmetric band around 1 of a size this model expresses")
+        return
+    scale = max(1, tol // 100)
+    TOLC.update(Tol=tol, Scale=scale, Band=2 * scale, MaxOff=70 * scale)
+    ctx.note("creation tolerance measured on the constructor: %d units of 1e-7" % tol)
     inv, prop = ["StaysNormalised"], ["RejectedChangesNothing"]
     res = ctx.tlc("Tolerance", constants=dict(TOLC, Local=False, Emitting=True, EmitOneIn=8 if quick else 1), invariants=inv, properties=prop, action_constraints=["Emit"], view="ViewP", coverage=False, timeout=1200)
     if len(res.emitted) < 1000 or not any(e["out"] == "rejected" for e in res.emitted) or not any(e["either"] for e in res.emitted):
@@ -328,7 +368,7 @@ def check_tolerance(ctx):
         ctx.count({"k": "tolerance-walk", "len": len(w), "rejected": sum(1 for s_ in w if s_["out"] == "rejected")}, kind="tolerance: behaviour on one object")
         for key_, msg in replay_tolerance(ctx, w):
             ctx.violation(key_, msg, {"k": "tolerance", "steps": w})
-    ctx.bounds["tolerance"] = "two-entry states, probabilities in units of 1e-7 within +-70 units of 1/2, steps of +-40, +-7, +3 units; creation tolerance 100 units (numpy.isclose), band +-2"
+    ctx.bounds["tolerance"] = "two-entry states, probabilities in units of 1e-7 within +-%d units of 1/2, steps of +-%d, +-%d, +%d units; creation tolerance %d units (measured on the constructor), band +-%d" % (TOLC["MaxOff"], 40 * scale, 7 * scale, 3 * scale, tol, TOLC["Band"])
 
 
 # ---- code -> spec ------------------------------------------------------------------------------------
@@ -518,6 +558,10 @@ def replay(ctx, case):
     elif case.get("k") == "dicke":
         check_dicke(ctx)
     elif case.get("k") == "tolerance":
+        tol = calibrate_tolerance()
+        if tol is not None:
+            sc = max(1, tol // 100)
+            TOLC.update(Tol=tol, Scale=sc, Band=2 * sc, MaxOff=70 * sc)
         ctx.count({"k": "tolerance", "n": len(case["steps"])})
         for key_, msg in replay_tolerance(ctx, case["steps"], fresh_each=len(case["steps"]) == 1):
             ctx.violation(key_, msg, case)
